@@ -637,6 +637,38 @@ package meta
 //@   property C01
 //@   callee metabase.findParent
 //@   pureeffect
+// Who the parent is: a part names it itself, or names the first part or the split ID it shares
+// with a part that does - or, being the first part of a V2 split, names nothing and is named as
+// their first part by the others. "No parent" is answered only after that last way was tried
+// too (a first part without it keeps reporting itself available after its object expired or
+// was removed).
+//@ ghost pred ownParentKnown() bool
+//@ ghost pred relationAttributeFound() bool
+//@ ghost field partsNamingItFirstAsked(x int) bool
+//@ callrule c01_own_parent in findParent
+//@   property C01
+//@   callee (id.ID).IsZero
+//@   pureeffect
+//@   defines !result ==> ownParentKnown()
+//@ callrule c01_relation_attribute in findParent
+//@   property C01
+//@   callee metabase.getObjAttribute
+//@   pureeffect
+//@   defines result != nil ==> relationAttributeFound()
+//@ callrule c01_parts_naming_it_first in findParent
+//@   property C01
+//@   callee metabase.seekForParentViaAttribute
+//@   assigns partsNamingItFirstAsked
+//@   defines partsNamingItFirstAsked(0) == (old(partsNamingItFirstAsked(0)) || (a1 == object.FilterFirstSplitObject && len(a2) == 32 && !resultOf(a2, "metabase.getObjAttribute")))
+//@ callrule c01_find_parent_collaborators in findParent
+//@   property C01
+//@   callee metabase.getParentID
+//@   pureeffect
+//@ func findParent
+//@   property C01
+//@   valid !partsNamingItFirstAsked(0)
+//@   loop 1 invariant !partsNamingItFirstAsked(0)
+//@   ensures [no_parent_only_after_asking_the_parts_that_name_this_one_first] ownParentKnown() || relationAttributeFound() || partsNamingItFirstAsked(0)
 //@ callrule c01_parent_presence in objectStatusNested
 //@   property C01
 //@   callee (id.ID).IsZero
